@@ -9,6 +9,7 @@ use serde_json::{json, Value};
 
 mod afftree;
 mod arena;
+mod distill;
 mod history;
 mod linalg;
 mod schema;
@@ -39,6 +40,11 @@ fn run_script(sc: &Value, id: usize, out: Out) {
         "afftree" => if sc.get("mode").and_then(|m| m.as_str()) == Some("history") { history::run(sc, id, out) } else { afftree::run(sc, id, out) },
         "regions" => regions::run(sc, id, out),
         "linalg" => linalg::run(sc, id, out),
+        "schema" => distill::run_schema(sc, id, out),
+        "slice" => distill::run_slice(sc, id, out),
+        "distill" => distill::run_distill(sc, id, out),
+        "arch" => distill::run_arch(sc, id, out),
+        "npz" => distill::run_npz(sc, id, out),
         _ => out(json!({"fam": fam, "sc": id, "ev": "unknown_family"})),
     }
 }
